@@ -136,7 +136,7 @@ def updateIr (c : Core) : Core :=
   | .keep => c
   | .reset => { c with ir := C.irReset }
   | .load =>
-    let bus := if c.lastBus.toNat = C.opReti
+    let bus := if c.lastBus.toNat = C.opReti ∧ (word c.addr).mac3
       then { c.bus with misr := c.bus.misr &&& ~~~(BitVec.ofNat 8 C.misrKeyPending) &&& ~~~(BitVec.ofNat 8 C.misrKeyActive) }
       else c.bus
     { c with bus := bus, ir := c.lastBus.toNat }
